@@ -19,6 +19,10 @@ def pathExt (p : Bytes) : Bytes := pathExtAux p.reverse []
 def trimSuffix (s suffix : Bytes) : Bytes :=
   if suffix.length ≤ s.length ∧ s.drop (s.length - suffix.length) = suffix then s.take (s.length - suffix.length) else s
 
+/-- `strings.CutSuffix(s, suffix)`. -/
+def cutSuffix (s suffix : Bytes) : Bytes × Bool :=
+  if suffix.length ≤ s.length ∧ s.drop (s.length - suffix.length) = suffix then (s.take (s.length - suffix.length), true) else (s, false)
+
 /-- `userNameRe.MatchString(s)` for the regular expression the translator understood
     (`^[first][rest]*$`, tables in Facts.lean; Go's `$` without the `m` flag is the end of the
     text; bytes ≥ 0x80 decode to runes outside both ASCII classes). -/
